@@ -59,8 +59,18 @@ def adders(ctx, roles):
 
 
 def removers(ctx, roles):
-    return [f for f in ctx.user_fns() if "TileManager" in (f.get("self_ty") or "") and
-            any(c["fn"] == HM + "remove" and c["k"] == "MCall" and c["recv"]["k"] == "Field" and c["recv"]["name"] == roles["tiles"] for c in calls(f["body"]))]
+    """functions of the store that take an id out of the id map: `tiles.remove(..)`, or `tiles.entry(..)` followed by `occupied.remove()`"""
+    out = []
+    for f in ctx.user_fns():
+        if "TileManager" not in (f.get("self_ty") or ""):
+            continue
+        cs = list(calls(f["body"]))
+        direct = any(c["fn"] == HM + "remove" and c["k"] == "MCall" and c["recv"]["k"] == "Field" and c["recv"]["name"] == roles["tiles"] for c in cs)
+        via_entry = any(c["fn"] == HM + "entry" and c["k"] == "MCall" and c["recv"]["k"] == "Field" and c["recv"]["name"] == roles["tiles"] for c in cs) and \
+            any(c["fn"].startswith("std::collections::hash::map::OccupiedEntry::") and c["fn"].endswith(("::remove", "::remove_entry")) for c in cs)
+        if direct or via_entry:
+            out.append(f)
+    return out
 
 
 def hash_fns(ctx):
@@ -180,8 +190,11 @@ def r_remove_guard(ctx):
         fa = ctx.fa(f)
         n_drop = 0
         for p in fa.paths:
-            first = [e for e in p.events if e.kind == "call" and any(e.d["fn"].startswith(x) for x in (HM, HS))]
+            first = [e for e in p.events if e.kind == "call" and any(e.d["fn"].startswith(x) for x in (HM, HS)) and e.d["fn"] != HM + "entry"]
             ok_first = bool(first) and first[0].d["fn"] == HM + "remove" and unmut(first[0].d["args"][0]) == self_field(roles["tiles"]) and unmut(first[0].d["args"][1]) == V("param:tile_id")
+            if not first and any(fct[0] == "variant" and fct[2].endswith("Entry::Occupied") and fct[3] is False and is_call_to(unmut(fct[1]), lambda s: s == HM + "entry")
+                                 and unmut(fct[1])[2][0] == self_field(roles["tiles"]) for fct, _d in path_facts(p)):
+                continue      # the id is not in the id map (vacant entry): nothing to remove on this path
             obs.append(Ob("R-REMOVE-GUARD", fn, "id map entry removed on every path", ok_first, "first map operation: %s" % (first[0].d["fn"].split("::")[-1] if first else "none"), rel(f["loc"])))
             if not ok_first:
                 continue
@@ -193,7 +206,10 @@ def r_remove_guard(ctx):
             drops_s += [e for e in p.events if e.kind == "call" and e.d["fn"].endswith("OccupiedEntry::<'a, K, V>::remove") or (e.kind == "call" and e.d["fn"].endswith("OccupiedEntry::<'a, K, V, A>::remove"))
                         if any(is_call_to(t_, lambda s: s == HM + "entry") and t_[2][0] == self_field(roles["ids"]) for t_ in subterms(unmut(e.d["args"][0])))]
             setrm = [e for e in p.events if e.kind == "call" and e.d["fn"] == HS + "remove"]
-            vacant = any(fct[0] == "variant" and fct[2].endswith("Entry::Occupied") and fct[3] is False for fct, _d in path_facts(p))
+            vacant = any((fct[0] == "variant" and fct[2].endswith("Entry::Occupied") and fct[3] is False) or
+                         (fct[0] == "variant" and fct[2] == "core::option::Option::Some" and fct[3] is False and
+                          is_call_to(unmut(fct[1]), lambda s: s in (HM + "get_mut", HM + "get")) and unmut(fct[1])[2][0] == self_field(roles["ids"]))
+                         for fct, _d in path_facts(p))
             hashed = knows(p, ("variant", removed, HASH_CTOR, True)) is not None
             if hashed and vacant:
                 # no id set exists for this hash: nothing to remove from
@@ -285,7 +301,7 @@ def finishers(ctx):
 
 
 def rle_fns(ctx):
-    return [f for f in ctx.user_fns() if any(c["fn"].endswith("::last_mut") for c in calls(f["body"])) and ctx.has_struct(f, ENTRY)]
+    return ctx.rle_fns()
 
 
 def r_finish_pair(ctx):
